@@ -13,7 +13,7 @@ import (
 // tail and the settle phase. A director that does not reach its shape is
 // still a valid schedule for the safety monitors.
 
-var directorNames = []string{"figure8", "deposed-leader", "conf-both-sides", "snapshot-laggard", "unapplied-conf-restart", "transfer-laggard", "revote-after-restart", "stale-snapshot", "removenode-replay", "vote-after-term-bump", "conf-behind-backlog"}
+var directorNames = []string{"figure8", "deposed-leader", "conf-both-sides", "snapshot-laggard", "unapplied-conf-restart", "transfer-laggard", "revote-after-restart", "stale-snapshot", "removenode-replay", "vote-after-term-bump", "conf-behind-backlog", "snapshot-shrunk-conf", "vote-for-new-voter-restart"}
 
 func directorConfig(name string, rng *rand.Rand) SimConfig {
 	c := SimConfig{ElectionTick: 10, HeartbeatTick: 1, MaxInflight: 256, MaxSizePerMsg: 1 << 20, MaxCommittedSize: 1 << 20}
@@ -53,6 +53,10 @@ func directorConfig(name string, rng *rand.Rand) SimConfig {
 	case "conf-behind-backlog":
 		c.Voters = 3
 		c.MaxSizePerMsg = []uint64{64, 64, 200}[rng.Intn(3)]
+	case "snapshot-shrunk-conf":
+		c.Voters = 5
+	case "vote-for-new-voter-restart":
+		c.Voters = 3
 	}
 	return c
 }
@@ -248,6 +252,10 @@ func runDirector(name string, s *Sim, rng *rand.Rand) bool {
 		return d.voteAfterTermBump()
 	case "conf-behind-backlog":
 		return d.confBehindBacklog()
+	case "snapshot-shrunk-conf":
+		return d.snapshotShrunkConf()
+	case "vote-for-new-voter-restart":
+		return d.voteForNewVoterRestart()
 	}
 	return false
 }
@@ -1407,6 +1415,226 @@ func (d *director) confBehindBacklog() bool {
 	}
 	s.Do(act("heal", 0))
 	d.rounds(8)
+	d.tail(250)
+	return true
+}
+
+// snapshotShrunkConf: two voters are removed one after the other while a third
+// voter is cut off; the removed replicas keep running (busy appliers); the
+// leader compacts, so the laggard catches up by a MsgSnap that carries the
+// shrunk configuration; then the restored replica and a real member campaign.
+func (d *director) snapshotShrunkConf() bool {
+	s := d.s
+	if !d.proloqueOK() {
+		return false
+	}
+	l := s.leader()
+	if l == nil || s.Done() {
+		return true
+	}
+	d.rounds(3)
+	if l = s.leader(); l == nil || s.Done() {
+		d.tail(200)
+		return true
+	}
+	L := l.id
+	o := d.others(L)
+	d.rng.Shuffle(len(o), func(i, j int) { o[i], o[j] = o[j], o[i] })
+	lag, ra, rb, c := o[0], o[1], o[2], o[3]
+	d.partition([]uint64{lag})
+	for _, id := range []uint64{ra, rb} {
+		// the replicas that are about to be removed do not get to apply it
+		na := act("noapply", id)
+		na.A = 1
+		s.Do(na)
+	}
+	d.propose(L, 2+d.rng.Intn(3))
+	d.rounds(2)
+	for _, victim := range []uint64{ra, rb} {
+		if !d.confWait(pb.ConfChangeRemoveNode, victim) {
+			s.Do(act("heal", 0))
+			d.tail(300)
+			return true
+		}
+	}
+	if cl := s.leader(); cl == nil || cl.id != L || s.Done() {
+		s.Do(act("heal", 0))
+		d.tail(300)
+		return true
+	}
+	d.propose(L, 2)
+	d.rounds(2)
+	s.Do(act("snap", L))
+	s.Do(act("snap", c))
+	s.Do(act("heal", 0))
+	rl := s.rep(lag)
+	for k := 0; k < 12 && rl.alive && !rl.confFromSnap && !s.Done(); k++ {
+		d.rounds(1)
+	}
+	if s.Done() {
+		return true
+	}
+	if rl.confFromSnap && len(rl.app.conf.Nodes) == 3 {
+		d.reached("snapshot-shrunk-conf")
+	}
+	// the old leader goes away; leases run out everywhere, removed replicas included
+	mode := d.rng.Intn(2)
+	if mode == 0 {
+		s.Do(act("crash", L))
+	} else {
+		d.partition([]uint64{L})
+	}
+	for _, id := range []uint64{lag, c, ra, rb} {
+		d.tick(id, s.cfg.ElectionTick)
+	}
+	d.pump(func(f *flight) int { return vDrop }, 400)
+	// the restored replica and a real member campaign
+	s.Do(act("camp", lag))
+	d.ready(lag)
+	s.Do(act("camp", c))
+	d.ready(c)
+	d.pump(func(f *flight) int {
+		if voteTraffic(f.m.Type) {
+			return vDeliver
+		}
+		return vDrop
+	}, 400)
+	s.Do(act("heal", 0))
+	if mode == 0 {
+		s.Do(act("restart", L))
+	}
+	d.rounds(2 * s.cfg.ElectionTick)
+	for _, id := range []uint64{ra, rb} {
+		s.Do(act("noapply", id))
+	}
+	d.rounds(5)
+	d.tail(250)
+	return true
+}
+
+// voteForNewVoterRestart: every replica snapshots, then voter X is added; the
+// leader goes away; X and an old voter Y become candidates of the same term; the
+// remaining voter V grants X (persisted and answered), crashes, restarts from
+// its snapshot (which does not list X yet) and is asked by Y.
+func (d *director) voteForNewVoterRestart() bool {
+	s := d.s
+	if !d.proloqueOK() {
+		return false
+	}
+	l := s.leader()
+	if l == nil || s.Done() {
+		return true
+	}
+	d.propose(l.id, 1+d.rng.Intn(3))
+	d.rounds(3)
+	for _, r := range s.alive() {
+		s.Do(act("snap", r.id))
+	}
+	x := s.nextID
+	if !d.confWait(pb.ConfChangeAddNode, x) {
+		d.tail(300)
+		return true
+	}
+	d.propose(s.leader().id, 1)
+	d.rounds(4)
+	if l = s.leader(); l == nil || s.Done() || !s.rep(x).alive || !hasID(s.rep(x).app.conf.Nodes, x) {
+		d.tail(300)
+		return true
+	}
+	L := l.id
+	o := d.others(L, x)
+	if len(o) < 2 {
+		d.tail(300)
+		return true
+	}
+	y, v := o[0], o[1]
+	if d.rng.Intn(2) == 0 {
+		y, v = v, y
+	}
+	s.Do(act("crash", L))
+	for _, id := range []uint64{x, y, v} {
+		if s.cfg.CheckQuorum {
+			d.tick(id, s.cfg.ElectionTick)
+		}
+	}
+	d.pump(func(f *flight) int { return vDrop }, 400)
+	rx, ry, rv := s.rep(x), s.rep(y), s.rep(v)
+	for try := 0; try < 3 && !s.Done(); try++ {
+		if rx.role != raft.StateCandidate {
+			s.Do(act("camp", x))
+			d.ready(x)
+		}
+		if ry.role != raft.StateCandidate {
+			s.Do(act("camp", y))
+			d.ready(y)
+		}
+		d.pump(func(f *flight) int {
+			switch f.m.Type {
+			case pb.MsgPreVote, pb.MsgPreVoteResp:
+				return vDeliver
+			case pb.MsgVote:
+				return vKeep
+			}
+			return vDrop
+		}, 400)
+		if rx.role == raft.StateCandidate && ry.role == raft.StateCandidate {
+			break
+		}
+	}
+	if s.Done() {
+		return true
+	}
+	if rx.role != raft.StateCandidate || ry.role != raft.StateCandidate || rx.term != ry.term {
+		d.pump(deliverAll, 300)
+		s.Do(act("restart", L))
+		d.tail(300)
+		return true
+	}
+	d.reached("vote-for-new-voter-restart")
+	find := func(from uint64) int {
+		for _, f := range s.net {
+			if f.m.Type == pb.MsgVote && f.m.From == from && f.m.To == v {
+				return f.id
+			}
+		}
+		return 0
+	}
+	if id := find(x); id != 0 {
+		dl := act("deliver", 0)
+		dl.ID = id
+		s.Do(dl)
+		d.ready(v)
+	}
+	if d.rng.Intn(2) == 0 {
+		d.pump(func(f *flight) int {
+			if f.m.Type == pb.MsgVoteResp && f.m.To == x {
+				return vDeliver
+			}
+			return vKeep
+		}, 50)
+	}
+	if rv.alive {
+		s.Do(act("crash", v))
+	}
+	rs := act("restart", v)
+	rs.A = uint64(d.rng.Intn(2))
+	s.Do(rs)
+	d.ready(v)
+	if id := find(y); id != 0 {
+		dl := act("deliver", 0)
+		dl.ID = id
+		s.Do(dl)
+		d.ready(v)
+	}
+	d.pump(func(f *flight) int {
+		if f.m.Type == pb.MsgVoteResp {
+			return vDeliver
+		}
+		return vKeep
+	}, 50)
+	d.pump(deliverAll, 400)
+	s.Do(act("restart", L))
+	d.rounds(5)
 	d.tail(250)
 	return true
 }
